@@ -583,6 +583,41 @@ func streamEnvAPI(o *Out, r *rand.Rand, n int, thorough bool) {
 			}
 			return nil
 		}},
+		{"a scope holding a nil of its own and scalar / string / interface values with storage of their own; Copy / DeepCopy; a store through Addr on one side", func(e *env.Env) interface{} {
+			_ = e.Define("n", nil)
+			iv := reflect.New(reflect.TypeOf(int64(0))).Elem()
+			iv.SetInt(1)
+			_ = e.DefineValue("x", iv)
+			sv := reflect.New(reflect.TypeOf("")).Elem()
+			sv.SetString("abc")
+			_ = e.DefineValue("s", sv)
+			for _, c := range []*env.Env{e.Copy(), e.NewEnv().DeepCopy()} {
+				for _, name := range []string{"n", "x", "s"} {
+					p, err := c.Addr(name)
+					if err != nil {
+						continue
+					}
+					switch name {
+					case "n":
+						p.Elem().Set(reflect.ValueOf(int64(5)))
+					case "x":
+						p.Elem().SetInt(2)
+					case "s":
+						p.Elem().SetString("Xbc")
+					}
+				}
+				if v, _ := e.Get("n"); v != nil {
+					return "copy shares the struct"
+				}
+				if v, _ := e.Get("x"); v != int64(1) {
+					return "copy shares the struct"
+				}
+				if v, _ := e.Get("s"); v != "abc" {
+					return "copy shares the struct"
+				}
+			}
+			return nil
+		}},
 		{"NewModule(m); Define(a, 1) in it; GetEnvFromPath([m a])", func(e *env.Env) interface{} { m, _ := e.NewModule("m"); _ = m.Define("a", 1); _, err := e.GetEnvFromPath([]string{"m", "a"}); return err }},
 		{"DefineType(T, nil); Type(T); GetTypeSymbols; String", func(e *env.Env) interface{} { _ = e.DefineType("T", nil); _, _ = e.Type("T"); e.GetTypeSymbols(); return e.String() }},
 		{"DefineReflectType(T, nil); Type(T)", func(e *env.Env) interface{} { _ = e.DefineReflectType("T", nil); t, err := e.Type("T"); return fmt.Sprint(t, err) }},
